@@ -23,6 +23,15 @@ def units(tier):
     for nl in (0, 1, 2, 3):
         for anchors in (0, 2, 3):
             us.append(Unit(CE.SetInode, {'nlinks': nl, 'anchors': anchors}))
+    # whole images: objects disjoint, inside the declared size, exact length, shared sectors iff links (independent readers)
+    from contracts import fidelity as F
+    for s in ('plain-small', 'hard-links', 'many-files', 'rr-ce-history', 'joliet-many-dirs', 'deep-rr-112', 'joliet-same-name-links'):
+        us.append(Unit(F.Mastered, {'script': s}))
+    for s in ('udf-many', 'udf-remove'):
+        us.append(Unit(F.MasteredUDF, {'script': s}))
+    # ... also for images as other tools write them (an empty file's record carries the next file's sector number)
+    for s in ('empty-files', 'plain-small'):
+        us.append(Unit(F.ReopenedForeignEmpty, {'script': s}))
     return us
 
 
@@ -31,21 +40,23 @@ def canaries(tier):
 
 
 META = {}
+OPTS = {'quick': {'unit_timeout_s': 900}, 'thorough': {'unit_timeout_s': 1800}}
 
 META = {
     'assumptions': [
         'component-wise reading of C04: every allocator/accountant is exact (space size deltas = ceil(bytes/block), path-table extents = 2*ceil(size/4096), continuation areas disjoint inside their block, content placed at one location shared by all its links, next-fit packing of records)',
         'B (bounded): continuation blocks with at most 3 (quick) / 5 existing areas; inodes with at most 3 links; directories of at most 4/6 records for whole-directory packing',
+        'B (bounded scenarios, executed by pyvc on the real code, symbolic file contents, decoded by the independent readers): nine images (multi-sector directory, continuation blocks with removals and re-use, Joliet path tables beyond one sector, relocation, links in several namespaces, multi-block UDF directory, UDF removals) must have all objects disjoint, inside the declared size, exact length, shared sectors iff links; two images in the form other mastering tools write (empty files carrying the next file\'s sector number) must keep every file on its own sectors after open + edit + write',
     ],
     'out_of_reach': [
-        'space_size = last assigned extent after every history, and global non-overlap of all on-disc objects: sum over the whole object graph (tree induction over _reshuffle_extents), not machine-checked',
+        'space_size = last assigned extent after EVERY history, and global non-overlap of all on-disc objects for arbitrary object graphs (tree induction over _reshuffle_extents): decided on the scenario images only',
         'the straight-line head of _reshuffle_extents (volume descriptor / path table extents) and _udf_assign_extents are not under contract yet',
     ],
-    'bounded': ['CEAddEntry n<=3/5', 'SetInode nlinks<=3', 'RecalcWhole n<=4/6'],
+    'bounded': ['CEAddEntry n<=3/5', 'SetInode nlinks<=3', 'RecalcWhole n<=4/6', '11 scenario images'],
 }
 
 MANIFEST = {
-    'level_text': 'Proof (deductive) of the allocation components: add/remove_to_space_size (ceil of bytes per block, frame), add/remove_from_ptr_size (PT-INV preserved, True iff two extents change), PrimaryOrSupplementaryVD.copy (sizes and path-table extents copied), continuation-area allocator add_entry / add_rr_ce_entry (disjoint, in block, None when full, new block iff flagged), _set_inode (one location for all links, next free sector = start + ceil(len/2048), third-anchor sector skipped), next-fit record packing step lemma. Two defects found and repaired (K3 full block reported as offset -1, K18 duplicate PVD lost its path-table extent count).',
-    'level_note': 'Trusted: pyvc, z3. Component exactness only: the composition to global non-overlap and exact image size over arbitrary edit histories (tree induction) is not machine-checked; bounded sizes for list-shaped pre-states as listed.',
+    'level_text': 'Proof (deductive) of the allocation components: add/remove_to_space_size (ceil of bytes per block, frame), add/remove_from_ptr_size (PT-INV preserved, True iff two extents change), PrimaryOrSupplementaryVD.copy (sizes and path-table extents copied), continuation-area allocator add_entry / add_rr_ce_entry (disjoint, in block, None when full, new block iff flagged), _set_inode (one location for all links, next free sector = start + ceil(len/2048), third-anchor sector skipped), next-fit record packing step lemma; plus eleven whole-image scenarios (symbolic contents, independent readers) for disjointness, declared size, exact length and shared-iff-linked, including images as other tools write them. Two defects found and repaired (K3 full block reported as offset -1, K18 duplicate PVD lost its path-table extent count).',
+    'level_note': 'Trusted: pyvc, z3. Component exactness for all inputs; the composition to global non-overlap and exact image size is checked on the scenario images, not over arbitrary edit histories (tree induction not machine-checked); bounded sizes for list-shaped pre-states as listed.',
     'design_ref': 'DESIGN.md section 4 C04',
 }
